@@ -138,11 +138,23 @@ def gurobi_to_z3(m):
 
     for c in m.getConstrs():
         cons.append(cmp(lin(m.getRow(c)), c.Sense, c.RHS))
+    binary = {v.VarName for v in m.getVars() if v.VType == GRB.BINARY}
+
+    def prod(a, b):
+        # product of two 0/1 variables stays linear for the SMT solver
+        if a.VarName in binary and b.VarName in binary:
+            return z3.If(z3.And(zv[a.VarName] == 1, zv[b.VarName] == 1), 1, 0)
+        if a.VarName in binary:
+            return z3.If(zv[a.VarName] == 1, zv[b.VarName], 0)
+        if b.VarName in binary:
+            return z3.If(zv[b.VarName] == 1, zv[a.VarName], 0)
+        return zv[a.VarName] * zv[b.VarName]
+
     for q in m.getQConstrs():
         e = m.getQCRow(q)
         s = lin(e.getLinExpr())
         for i in range(e.size()):
-            s = s + _num(e.getCoeff(i)) * zv[e.getVar1(i).VarName] * zv[e.getVar2(i).VarName]
+            s = s + _num(e.getCoeff(i)) * prod(e.getVar1(i), e.getVar2(i))
         cons.append(cmp(s, q.QCSense, q.QCRHS))
     ngen = 0
     for g in m.getGenConstrs():
@@ -162,7 +174,7 @@ def gurobi_to_z3(m):
     if isinstance(obj, gp.QuadExpr):
         s = lin(obj.getLinExpr())
         for i in range(obj.size()):
-            s = s + _num(obj.getCoeff(i)) * zv[obj.getVar1(i).VarName] * zv[obj.getVar2(i).VarName]
+            s = s + _num(obj.getCoeff(i)) * prod(obj.getVar1(i), obj.getVar2(i))
         out.objective = s
     else:
         out.objective = lin(obj)
